@@ -64,11 +64,33 @@ def run(ctx, rep, rid="R-C01-choiceid", only=None):
                     if nm != "_" and len(re.findall(r"(?<![A-Za-z0-9_.])%s\b" % re.escape(nm), code)) > 1:
                         return False
                 return True
-            only_presence = all(presence_only(u) for u in uses)
+            # which token matched is in the token's kind (or its text); its position says nothing about it.  The names under which the action
+            # can look at the token: the label, what `Some(name)` binds when the label is matched, and the parameter of a closure handed to a
+            # method of the label (`sign.map_or_else(|| .., |sign| ..)`)
+            aliases = {e.label}
+            for m_ in re.finditer(r"(?<![A-Za-z0-9_.])%s\b((?:\s*\.\s*(?:as_ref|as_mut|clone|iter|into_iter)\s*\(\s*\))*)\s*\.\s*\w+\s*\(" % re.escape(e.label), code):
+                tail = code[m_.end():m_.end() + 400]
+                aliases |= set(re.findall(r"\|\s*&?\s*(?:mut\s+)?(\w+)\s*\|", tail[:200]))
+            for m_ in re.finditer(r"(?:match\s+&?\s*%s\b[^{]*\{|if\s+let\s+Some\s*\(\s*(\w+)\s*\)\s*=\s*&?\s*%s\b)" % (re.escape(e.label), re.escape(e.label)), code):
+                if m_.group(1):
+                    aliases.add(m_.group(1))
+                else:
+                    aliases |= set(re.findall(r"Some\s*\(\s*(?:ref\s+)?(\w+)\s*\)\s*=>", code[m_.end():]))
+            aliases.discard("_")
+            reveals = False
+            for al in aliases:
+                for m_ in re.finditer(r"(?<![A-Za-z0-9_.])%s\b" % re.escape(al), code):
+                    after = code[m_.end():]
+                    before = code[:m_.start()].rstrip()
+                    if re.match(r"\s*\.\s*(token_type|text)\b", after):
+                        reveals = True
+                    elif before.endswith(("(", ",", "&", "=>")) and re.match(r"\s*[,)]", after) and not re.search(r"Some\s*\($", before) and not before.endswith("|"):
+                        reveals = True      # handed on whole: the callee can look
+            only_presence = all(presence_only(u) for u in uses) or not reveals
             if only_presence:
-                r.finding(inst + "|presence-only", where, "the action only asks whether `%s` matched (is_some/is_none), not which alternative: %s are read as the same thing" % (e.label, " and ".join(names)))
+                r.finding(inst + "|presence-only", where, "the action only asks whether `%s` matched (is_some/is_none) or where it stands (its span), never which alternative it is (token_type / text): %s are read as the same thing" % (e.label, " and ".join(names)))
             else:
-                r.ok(inst, where, "used as a value")
+                r.ok(inst, where, "the token's kind or text is looked at")
     if not n:
         r.count_override = 1
         r.note("no labelled choice of bare tokens in the grammar today (alternatives carry their own actions); positive example: seeded/C01-J")
